@@ -19,6 +19,14 @@ Local Open Scope string_scope.
 Record dloc := DL { dl : nat }.      (* a Boxed_Value: index of its Data record *)
 Record oloc := OL { ol : nat }.      (* an object *)
 
+(* what kind of function object a script definition produced:
+   a Dynamic_Proxy_Function (def / lambda), or one of the non-dynamic wrappers of dynamic_object_detail.hpp *)
+Inductive ckind :=
+| CKPlain
+| CKMethod (cls : string)            (* Dynamic_Object_Function: the first argument must be an object of class cls *)
+| CKCtor (cls : string)              (* Dynamic_Object_Constructor: makes the object, then runs the body with it as `this` *)
+| CKAttr (cls attr : string).        (* attribute accessor: Dynamic_Object::get_attr(attr) *)
+
 Record closure := mkclosure {
   cl_name : string;
   cl_params : list string;
@@ -26,7 +34,8 @@ Record closure := mkclosure {
   cl_body : ast;
   cl_guard : option ast;
   cl_caps : list (string * dloc);   (* captured Boxed_Values, sorted by name (std::map) *)
-  cl_this_capture : bool }.
+  cl_this_capture : bool;
+  cl_kind : ckind }.
 
 Inductive fnobj :=
 | FClosure (c : closure)
